@@ -30,7 +30,7 @@ ASSUMPTIONS = [
 ]
 COMPONENTS = {"real": ["pyxel.load / configuration builders", "Geometry / Environment / Characteristics / APDCharacteristics validation", "Readout and ParameterValues expression evaluation", "Observation sweep path"], "stub": []}
 BUDGET = {"quick": {"n": 960, "wall": 100, "determinism": 4}, "thorough": {"n": 120000, "wall": 1500, "determinism": 12}}
-REQUIRED_REACH = ["kind:derived", "derived_compared", "derived_refused_by_constructor", "derived_path:sweep", "derived_path:attribute", "derived_path:key", "derived:common_voltage", "kind:twin", "kind:count", "kind:range", "twin:exposure", "twin:observation", "numpy_expression", "count:no-mode", "count:two-modes", "count:no-detector", "count:two-detectors", "path:sweep_rejects", "anchor_checked", "class:boundary", "class:beyond", "class:far", "class:sign"] + [f"type:{t}" for t in world.DET_TYPES]
+REQUIRED_REACH = ["kind:derived", "derived_compared", "derived_refused_by_constructor", "derived_path:sweep", "derived_path:attribute", "derived_path:key", "derived:common_voltage", "kind:twin", "kind:count", "kind:range", "twin:exposure", "twin:observation", "numpy_expression", "count:no-mode", "count:two-modes", "count:no-detector", "count:two-detectors", "count:three-modes", "count:three-detectors", "path:sweep_rejects", "anchor_checked", "class:boundary", "class:beyond", "class:far", "class:sign"] + [f"type:{t}" for t in world.DET_TYPES]
 
 # field -> (section, low, high, integer?)  -- ranges only used to *generate* interesting values
 FIELDS = {
@@ -132,7 +132,7 @@ def generate(rng, tier):
         tmp = dict(scn, readout=dict(rd, times=list(scn["readout_values"])), mode={"kind": "observation", "parameters": []})
         scn["mode"] = {"kind": "observation", "obs_mode": rng.choice(["product", "sequential"]), "with_dask": False, "pipeline_seed": None, "parameters": obs.gen_parameters(rng, tmp, allow_vec=False, max_runs=6)}
     if kind == "count":
-        scn["count_fault"] = rng.choice(["no-mode", "two-modes", "no-detector", "two-detectors"])
+        scn["count_fault"] = rng.choice(["no-mode", "two-modes", "no-detector", "two-detectors", "three-modes", "three-detectors"])
     return scn
 
 
@@ -336,6 +336,26 @@ def execute(scn):
                 elif cf == "two-modes":
                     other = "observation" if mk == "exposure" else "exposure"
                     doc[other] = {"readout": {"times": [1.0]}} if other == "exposure" else {"readout": {"times": [1.0]}, "parameters": [{"key": "detector.characteristics.quantum_efficiency", "values": [0.5]}]}
+                elif cf == "three-modes":
+                    for other in ("exposure", "observation", "calibration"):
+                        if other in doc:
+                            continue
+                        if other == "exposure":
+                            doc[other] = {"readout": {"times": [1.0]}}
+                        elif other == "observation":
+                            doc[other] = {"readout": {"times": [1.0]}, "parameters": [{"key": "detector.characteristics.quantum_efficiency", "values": [0.5]}]}
+                        else:
+                            doc[other] = {
+                                "result_type": "pixel", "result_fit_range": [0, 2, 0, 2], "target_data_path": ["target.npy"], "target_fit_range": [0, 2, 0, 2],
+                                "fitness_function": {"func": "pyxel.calibration.fitness.sum_of_abs_residuals"}, "algorithm": {"type": "sade", "generations": 1, "population_size": 7},
+                                "parameters": [{"key": "detector.characteristics.quantum_efficiency", "values": "_", "boundaries": [0.1, 0.9]}],
+                            }
+                elif cf == "three-detectors":
+                    others = [k9 for k9 in ("ccd_detector", "cmos_detector", "mkid_detector") if k9 != dk][:2]
+                    for other in others:
+                        doc[other] = copy.deepcopy(doc[dk])
+                        if dtype == "APD":
+                            doc[other]["characteristics"] = {"quantum_efficiency": 0.5}
                 elif cf == "no-detector":
                     doc.pop(dk)
                 else:
